@@ -4,6 +4,39 @@ import re
 import sys
 
 
+def binder_names(binders):
+    """explicit binder names, in order: bare identifiers and the names of ( x y : T ) groups at depth 0;
+    { ... } groups are implicit and skipped"""
+    names, i, n = [], 0, len(binders)
+    while i < n:
+        c = binders[i]
+        if c in "({":
+            depth, j = 1, i + 1
+            while j < n and depth:
+                depth += binders[j] in "({"
+                depth -= binders[j] in ")}"
+                j += 1
+            group = binders[i + 1:j - 1]
+            if c == "(":
+                k, d = 0, 0
+                for k, ch in enumerate(group):
+                    d += ch in "({"
+                    d -= ch in ")}"
+                    if ch == ":" and d == 0:
+                        break
+                names += group[:k].split()
+            i = j
+        elif c.isspace():
+            i += 1
+        else:
+            j = i
+            while j < n and not binders[j].isspace() and binders[j] not in "({":
+                j += 1
+            names.append(binders[i:j])
+            i = j
+    return names
+
+
 def theorems(path, only=None, indent="  "):
     text = open(path).read()
     out = []
@@ -21,14 +54,7 @@ def theorems(path, only=None, indent="  "):
             elif c == ":" and depth == 0 and rest[i:i + 2] != ":=":
                 break
         binders, stmt = rest[:i], rest[i + 1:]
-        names = []
-        for tok in re.finditer(r"\{[^}]*\}|\(([^:()]*):[^()]*(?:\([^()]*\)[^()]*)*\)|([\w']+)", binders):
-            if tok.group(0).startswith("{"):
-                continue
-            if tok.group(1) is not None:
-                names += tok.group(1).split()
-            elif tok.group(2):
-                names.append(tok.group(2))
+        names = binder_names(binders)
         out.append((name, binders.strip(), stmt.rstrip().rstrip("."), names))
     return out
 
@@ -56,6 +82,8 @@ def main():
     print(header)
     print("\n".join(body))
     print("End %s.\n" % pid)
+    if top:
+        print("Local Open Scope nat_scope.\n")
     print("\n".join(top))
     print("\n".join(prints))
 
